@@ -93,6 +93,7 @@ type Exec struct {
 	frozenPrefix map[string][]string
 	keyLog       map[string]bool // when set, heap keys read are recorded (dependency of an invariant)
 	ownWritten   map[string]bool // heap keys this function wrote on objects that existed before it ran
+	cut          bool     // past the "cutafter" point of the root contract
 	interfering  bool     // modelling interference at a lock acquisition (not a write of this function)
 	calleeHavoc  int      // >0 while the effects of a callee are being forgotten
 	stableCells  []string // write-once captured local variables (see writeOnceCaptured)
